@@ -1,4 +1,5 @@
 import Wx.Cli.Compose
+import Wx.Cli.TimeSpan
 /-! Driver for C05: the CLI action logic (`Ca.react`) composed with the job-task simulator (`Jm`).
     A script is `init | chg | a:<ms> | y`; every event makes the action handler enqueue one state-query
     closure (a `func` control with a fresh id ≥ 2000); when the job task executes it, the reaction of
@@ -26,8 +27,8 @@ def sigOf (s : String) : Option Sig := match s with
   | "SIGHUP" => some 1 | "SIGINT" => some 2 | "SIGQUIT" => some 3 | "SIGKILL" => some 9 | "SIGUSR1" => some 10
   | "SIGUSR2" => some 12 | "SIGTERM" => some 15 | _ => none
 
-def durMs (s : String) : Nat :=
-  if s.endsWith "ms" then (s.dropEnd 2).toString.toNat! else if s.endsWith "s" then (s.dropEnd 1).toString.toNat! * 1000 else s.toNat! * 1000
+/-- `--stop-timeout` / `--delay-run` values (unitless = seconds) through the modelled `TimeSpan` parser, in ms -/
+def durMs (s : String) : Nat := ((Ca.Ts.parseSpan Ca.Ts.sMult s.toList).getD 0) / 1000000
 
 def parseCfg (flags : List String) : Cfg :=
   flags.foldl (fun cfg f => match f.splitOn "=" with
